@@ -275,6 +275,7 @@ type harness struct {
 	dict  map[string]decRes
 	reads int
 	fab   *[3]int // first (file, pos, val) of the current log on which ReadAll fabricated an entry
+	want  []string // when non-nil: exactly what the next recovery run must replay (torn-tail stage)
 }
 
 func (h *harness) declare(inner []byte) decRes {
@@ -638,6 +639,42 @@ func (h *harness) runLog(lc *logCase) {
 		h.recovery(lc, pl, fs, fmt.Sprintf("file %d byte %d set to 0x%02x", h.fab[0], h.fab[1], h.fab[2]))
 	}
 	if lc.doRec {
+		// Reader→Recovery composition on a torn tail: cut the LAST file that holds entries at every
+		// offset class of each of its entries (inside the header, exactly/just past the 16 header
+		// bytes, inside the payload, last byte missing); every complete entry before the tear — in
+		// this and in all earlier files — must reach the callbacks.
+		last := -1
+		for _, p := range pl {
+			if p.file > last {
+				last = p.file
+			}
+		}
+		if last >= 0 && last == len(files)-1 {
+			for _, p := range pl {
+				if p.file != last {
+					continue
+				}
+				cuts := []int{p.off + 8, p.off + 15, p.off + 16, p.off + 17, p.off + 16 + (p.end-p.off-16)/2, p.end - 1}
+				seenCut := map[int]bool{}
+				for _, cut := range cuts {
+					if cut <= p.off || cut >= p.end || seenCut[cut] {
+						continue
+					}
+					seenCut[cut] = true
+					fs := make([][]byte, len(files))
+					copy(fs, files)
+					fs[last] = files[last][:cut]
+					h.want = []string{}
+					for _, q := range pl {
+						if q.exp != nil && (q.file < last || (q.file == last && q.end <= cut)) {
+							h.want = append(h.want, q.exp.key())
+						}
+					}
+					h.recovery(lc, pl, fs, fmt.Sprintf("torn tail: file %d cut at byte %d (%d bytes into the entry at %d)", last, cut, cut-p.off, p.off))
+					c.Tag("recovery:torn-tail")
+				}
+			}
+		}
 		h.recovery(lc, pl, files, "clean")
 		if len(files) > 0 {
 			// a few damaged variants through the full recovery path
@@ -1006,6 +1043,13 @@ func (h *harness) recoveryM(lc *logCase, pl []placed, files [][]byte, what strin
 	}
 	if !isSubseq(y, appended) {
 		c.Fail("order-violated:Recover", "recovery replayed entries duplicated or out of append order", replay)
+	}
+	if h.want != nil {
+		if strings.Join(y, ",") != strings.Join(h.want, ",") {
+			c.Fail("complete-entry-not-replayed:torn-tail",
+				fmt.Sprintf("a crash tore the tail of the last WAL file; recovery replayed %v but the completely written entries before the tear are %v", y, h.want), replay)
+		}
+		h.want = nil
 	}
 	if strings.HasPrefix(what, "clean") && !strings.Contains(what, "same-instant") && strings.Join(y, ",") != strings.Join(appended, ",") {
 		c.Fail("clean-recovery-incomplete:Recover", "recovery of undamaged files did not replay exactly the appended entries", replay)
